@@ -532,6 +532,25 @@ func c03Random(r *rep.Reporter, s *drv.Server, bucket string, t c03Target, idx i
 				want = append(want, k)
 			}
 		}
+		// keys that carry, below the root, the names the backends use for their own bookkeeping at the
+		// root: ordinary keys
+		if d == "" || d == "/" {
+			internal := []string{"logs/.gofakes3-uploads/a.txt", "tmp/.gofakes3-uploads", "x/metadata/y", "x/uploads/put-1", "q/buckets/z", "m/.modtime-resolution", "s/k.staged", "n/_meta", "logs/.gofakes3-uploads-not", "x/metadata"}
+			for i := 0; i < 2; i++ {
+				k := internal[rng.Intn(len(internal))]
+				cand := append(append([]string(nil), want...), k)
+				dupe := false
+				for _, w := range want {
+					if w == k {
+						dupe = true
+					}
+				}
+				if !dupe && (!isFs || conflictFree(cand)) {
+					want = append(want, k)
+					r.Count("keys_with_internal_names_below_the_root", 1)
+				}
+			}
+		}
 		if !syncBucket(r, s, bucket, live, want, fmt.Sprintf("r%d-%d", idx, round)) {
 			return
 		}
